@@ -597,6 +597,9 @@ impl Engine for C17Engine {
     fn prop(&self) -> &'static str {
         "C17"
     }
+    fn fuzz(&self) -> Option<FuzzSpec> {
+        Some(FuzzSpec { target: "fz_misc", max_len: 64, target_prefix: vec![2], engine_prefix: vec![] })
+    }
     fn strategy(&self, _tier: Tier) -> BoxedStrategy<Vec<u8>> {
         (0u8..NKINDS, proptest::collection::vec(any::<u8>(), 24)).prop_map(|(k, mut v)| {
             v.insert(0, k);
@@ -615,8 +618,8 @@ impl Engine for C17Engine {
     }
     fn cases(&self, tier: Tier) -> u32 {
         match tier {
-            Tier::Quick => 2500,
-            Tier::Thorough => 40000,
+            Tier::Quick => 10000,
+            Tier::Thorough => 100000,
         }
     }
     fn rule(&self) -> String {
